@@ -4,6 +4,12 @@
 //! Declared as a child module of `transport::manager` so that it can read the manager's private
 //! bookkeeping (`peers`, `pending_connections`, `connection_limits`, ...) without accessors.
 //!
+//! Facade level (`facade`, `fdial`, `fdialaddr`, `fnext`): the manager lives inside a real `Litep2p`
+//! (its fields are private to the crate root, i.e. visible here); after `facade` every operation
+//! polls `Litep2p::next_event()` instead of `TransportManager::next()` and prints the
+//! `Litep2pEvent`s the user of the library sees (`udialfail:<address>:<kind>`, `ulist:<a>=<k>|..`,
+//! `est:..`, `closed:..`).
+//!
 //! Addresses use a component syntax (`ip4.5/tcp.5/p2p.1`, `-` for the empty address); peers are
 //! `crate::verif::peer(i)` (`0` is the local peer); connection ids are named by the labels the
 //! operations introduce (`as=c3`, or the first use of a label in an `ev` operation, which takes a
@@ -21,7 +27,7 @@ use crate::{
     transport::{Endpoint, Transport, TransportEvent},
     types::{protocol::ProtocolName, ConnectionId},
     verif::{peer, peer_index, VerifBox},
-    PeerId,
+    BandwidthSink, Litep2p, Litep2pEvent, PeerId,
 };
 
 use futures::{future::BoxFuture, Stream};
@@ -133,16 +139,26 @@ impl Transport for Scripted {
     }
 }
 
-type NextFuture = Pin<Box<dyn Future<Output = Option<TransportEvent>>>>;
+/// What one poll of the node returned: an event of `TransportManager::next()` or (facade level) of
+/// `Litep2p::next_event()`.
+enum Polled {
+    T(TransportEvent),
+    U(Litep2pEvent),
+}
+
+type NextFuture = Pin<Box<dyn Future<Output = Option<Polled>>>>;
 
 pub struct ManagerBox {
-    /// A `TransportManager::next()` future that is suspended INSIDE one of its arms (a blocking
-    /// `send().await` to a protocol whose channel is full). It borrows `manager` (lifetime
-    /// erased): while it is `Some` the manager is only looked at, never called, and it is dropped
-    /// before the manager (field order).
+    /// A `TransportManager::next()` / `Litep2p::next_event()` future that is suspended INSIDE one
+    /// of the manager's arms (a blocking `send().await` to a protocol whose channel is full). It
+    /// borrows `node` (lifetime erased): while it is `Some` the node is only looked at, never
+    /// called, and it is dropped before the node (field order).
     next_fut: Option<NextFuture>,
     rt: tokio::runtime::Runtime,
-    manager: Option<Box<TransportManager>>,
+    /// the real facade object; the manager under test is its `transport_manager`
+    node: Option<Box<Litep2p>>,
+    /// facade level: poll `Litep2p::next_event()` and print what the user sees
+    facade: bool,
     shared: Arc<Mutex<Shared>>,
     labels: HashMap<String, ConnectionId>,
     names: HashMap<ConnectionId, String>,
@@ -160,7 +176,8 @@ impl ManagerBox {
         Self {
             next_fut: None,
             rt: tokio::runtime::Builder::new_current_thread().enable_all().build().expect("runtime"),
-            manager: None,
+            node: None,
+            facade: false,
             shared: Arc::new(Mutex::new(Shared::default())),
             labels: HashMap::new(),
             names: HashMap::new(),
@@ -178,7 +195,11 @@ impl ManagerBox {
     /// resumed by the next operation. Whether a pending future sits at its `select!` or inside an
     /// arm is decided by polling it a second time: at the `select!` every poll polls the
     /// transport again, inside an arm only the blocked `send()` is polled.
-    fn pump(&mut self) -> Vec<TransportEvent> {
+    fn mgr(&self) -> &TransportManager {
+        &self.node.as_ref().expect("limits first").transport_manager
+    }
+
+    fn pump(&mut self) -> Vec<Polled> {
         let mut events = Vec::new();
         let waker = futures::task::noop_waker();
         let mut cx = Context::from_waker(&waker);
@@ -186,13 +207,17 @@ impl ManagerBox {
             let mut future = match self.next_fut.take() {
                 Some(future) => future,
                 None => {
-                    let manager: *mut TransportManager = &mut **self.manager.as_mut().expect("limits first");
-                    // SAFETY: the manager is boxed and outlives the future (`next_fut` is cleared
-                    // before the manager is replaced and is declared before it); while the future
-                    // exists the adapter does not call into the manager.
-                    let future: Pin<Box<dyn Future<Output = Option<TransportEvent>> + '_>> =
-                        Box::pin(unsafe { &mut *manager }.next());
-                    unsafe { std::mem::transmute::<_, NextFuture>(future) }
+                    let node: *mut Litep2p = &mut **self.node.as_mut().expect("limits first");
+                    // SAFETY: the node is boxed and outlives the future (`next_fut` is cleared
+                    // before the node is replaced and is declared before it); while the future
+                    // exists the adapter does not call into the node.
+                    let node: &'static mut Litep2p = unsafe { &mut *node };
+                    let future: NextFuture = if self.facade {
+                        Box::pin(async move { node.next_event().await.map(Polled::U) })
+                    } else {
+                        Box::pin(async move { node.transport_manager.next().await.map(Polled::T) })
+                    };
+                    future
                 }
             };
             let mut pending_twice = false;
@@ -255,7 +280,7 @@ impl ManagerBox {
     }
 
     fn local(&self) -> PeerId {
-        self.manager.as_ref().expect("limits first").local_peer_id
+        self.mgr().local_peer_id
     }
 
     fn peer_of(&self, i: u64) -> PeerId {
@@ -372,8 +397,7 @@ impl ManagerBox {
         if let Some(id) = self.labels.get(label) {
             return *id;
         }
-        let manager = self.manager.as_ref().expect("limits first");
-        let id = ConnectionId::from(manager.next_connection_id.fetch_add(1usize, Ordering::Relaxed));
+        let id = ConnectionId::from(self.mgr().next_connection_id.fetch_add(1usize, Ordering::Relaxed));
         self.bind(label, id);
         id
     }
@@ -463,37 +487,42 @@ impl ManagerBox {
                 }
             })
             .collect();
+        let items = |errors: &Vec<(Multiaddr, DialError)>| -> String {
+            let items: Vec<String> =
+                errors.iter().map(|(a, e)| format!("{}={}", self.show_addr(a), Self::error_kind(e))).collect();
+            items.join("|")
+        };
         let events: Vec<String> = events
             .iter()
             .map(|event| match event {
-                TransportEvent::ConnectionEstablished { peer, endpoint } => format!(
+                Polled::T(TransportEvent::ConnectionEstablished { peer, endpoint })
+                | Polled::U(Litep2pEvent::ConnectionEstablished { peer, endpoint }) => format!(
                     "est:{}:{}:{}:{}",
                     self.peer_name(peer),
                     self.conn_name(endpoint.connection_id()),
                     if endpoint.is_listener() { "listener" } else { "dialer" },
                     self.show_addr(endpoint.address())
                 ),
-                TransportEvent::ConnectionClosed { peer, connection_id } =>
+                Polled::T(TransportEvent::ConnectionClosed { peer, connection_id })
+                | Polled::U(Litep2pEvent::ConnectionClosed { peer, connection_id }) =>
                     format!("closed:{}:{}", self.peer_name(peer), self.conn_name(*connection_id)),
-                TransportEvent::DialFailure { connection_id, address, error } => format!(
+                Polled::T(TransportEvent::DialFailure { connection_id, address, error }) => format!(
                     "dialfail:{}:{}:{}",
                     self.conn_name(*connection_id),
                     self.show_addr(address),
                     Self::error_kind(error)
                 ),
-                TransportEvent::OpenFailure { connection_id, errors } => {
-                    let items: Vec<String> = errors
-                        .iter()
-                        .map(|(a, e)| format!("{}={}", self.show_addr(a), Self::error_kind(e)))
-                        .collect();
-                    format!("openfail:{}:{}", self.conn_name(*connection_id), items.join("|"))
-                }
-                _ => "other".into(),
+                Polled::T(TransportEvent::OpenFailure { connection_id, errors }) =>
+                    format!("openfail:{}:{}", self.conn_name(*connection_id), items(errors)),
+                // what the user of the library is told: no connection ids
+                Polled::U(Litep2pEvent::DialFailure { address, error }) =>
+                    format!("udialfail:{}:{}", self.show_addr(address), Self::error_kind(error)),
+                Polled::U(Litep2pEvent::ListDialFailures { errors }) => format!("ulist:{}", items(errors)),
+                Polled::T(_) => "other".into(),
             })
             .collect();
         // (reads only; a suspended `next()` future is not running while we look)
-        let manager: &TransportManager =
-            unsafe { &*(&**self.manager.as_ref().expect("limits first") as *const TransportManager) };
+        let manager: &TransportManager = unsafe { &*(self.mgr() as *const TransportManager) };
         let mut states: Vec<(u64, String)> = manager
             .peers
             .read()
@@ -568,14 +597,20 @@ impl VerifBox for ManagerBox {
             let config = ConnectionLimitsConfig::default()
                 .max_incoming_connections(max_in)
                 .max_outgoing_connections(max_out);
-            let mut manager =
-                Box::new(TransportManagerBuilder::new().with_connection_limits_config(config).build());
+            let mut manager = TransportManagerBuilder::new().with_connection_limits_config(config).build();
             self.next_fut = None;
             self.shared = Arc::new(Mutex::new(Shared::default()));
             manager.register_transport(SupportedTransport::Tcp, Box::new(Scripted(self.shared.clone())));
             manager.register_listen_address("/ip4/10.0.0.99/tcp/99".parse().expect("address"));
             self.handle = Some(manager.transport_manager_handle());
-            self.manager = Some(manager);
+            // the facade object around the manager, assembled as `Litep2p::new` does
+            self.node = Some(Box::new(Litep2p {
+                local_peer_id: manager.local_peer_id,
+                listen_addresses: Vec::new(),
+                transport_manager: manager,
+                bandwidth_sink: BandwidthSink::new(),
+            }));
+            self.facade = false;
             self.labels.clear();
             self.names.clear();
             self.ptx.clear();
@@ -583,7 +618,7 @@ impl VerifBox for ManagerBox {
             self.auto = 0;
             return "ok".into();
         }
-        if self.manager.is_none() {
+        if self.node.is_none() {
             return "bad-op".into();
         }
         let label = t.iter().find_map(|a| a.strip_prefix("as="));
@@ -599,7 +634,7 @@ impl VerifBox for ManagerBox {
                 if !self.ptx.is_empty() || self.next_fut.is_some() || n == 0 || n > 3 || cap == 0 || cap > 8 {
                     return "bad-op".into();
                 }
-                let manager = self.manager.as_mut().unwrap();
+                let manager = &mut self.node.as_mut().unwrap().transport_manager;
                 for j in 0..n {
                     // as `register_protocol`, with a channel of the requested capacity
                     let (tx, rx) = channel(cap);
@@ -681,19 +716,38 @@ impl VerifBox for ManagerBox {
                     list.push(a);
                 }
                 let who = self.peer_of(p);
-                let n = self.manager.as_mut().unwrap().add_known_address(who, list.into_iter());
+                let n = self.node.as_mut().unwrap().transport_manager.add_known_address(who, list.into_iter());
                 self.observe(format!("n={n}"), None)
             }
             ["dial", p, ..] => {
                 let Ok(p) = p.parse::<u64>() else { return "bad-op".into() };
                 let who = self.peer_of(p);
-                let manager = self.manager.as_mut().unwrap();
+                let manager = &mut self.node.as_mut().unwrap().transport_manager;
                 let result = self.rt.block_on(manager.dial(who));
                 self.observe(Self::api_result(result), label)
             }
+            // --- facade level
+            ["facade"] => {
+                self.facade = true;
+                "ok".into()
+            }
+            ["fdial", p, ..] => {
+                let Ok(p) = p.parse::<u64>() else { return "bad-op".into() };
+                let who = self.peer_of(p);
+                let node = self.node.as_mut().unwrap();
+                let result = self.rt.block_on(node.dial(&who));
+                self.observe(Self::api_result(result), label)
+            }
+            ["fdialaddr", address, ..] => {
+                let Some(address) = self.parse_addr(address) else { return "bad-op".into() };
+                let node = self.node.as_mut().unwrap();
+                let result = self.rt.block_on(node.dial_address(address));
+                self.observe(Self::api_result(result), label)
+            }
+            ["fnext"] => self.observe("-".into(), None),
             ["dialaddr", address, ..] => {
                 let Some(address) = self.parse_addr(address) else { return "bad-op".into() };
-                let manager = self.manager.as_mut().unwrap();
+                let manager = &mut self.node.as_mut().unwrap().transport_manager;
                 let result = self.rt.block_on(manager.dial_address(address));
                 self.observe(Self::api_result(result), label)
             }
@@ -748,7 +802,7 @@ impl VerifBox for ManagerBox {
                 let Ok(p) = p.parse::<u64>() else { return "bad-op".into() };
                 let id = self.conn_of(conn);
                 let who = self.peer_of(p);
-                let tx = self.manager.as_ref().unwrap().event_tx.clone();
+                let tx = self.mgr().event_tx.clone();
                 tx.try_send(TransportManagerEvent::ConnectionClosed { peer: who, connection: id })
                     .expect("event channel");
                 self.observe("-".into(), None)
